@@ -804,7 +804,14 @@ type request struct {
 	Cuts  bool   `json:"cuts"` // c09: every byte-wise truncation of the rendered text
 	Pads  bool   `json:"pads"` // c09: the rendered text padded to lengths around the scanner's buffer size
 	Long  bool   `json:"long"` // c10: also renderings longer than the scanner's buffer (see longVariants)
+	Gen   *genReq `json:"gen"` // c09: the input is head followed by n times rep (inputs of many megabytes, built here)
 	ID    int    `json:"id"`
+}
+
+type genReq struct {
+	Head string `json:"head"`
+	Rep  string `json:"rep"`
+	N    int    `json:"n"`
 }
 
 var refusedTexts = []string{
@@ -842,7 +849,16 @@ func handle(req request) interface{} {
 		return obj{"ok": true, "n": n, "nlong": nlong, "groups": groups, "id": req.ID}
 	case "c09":
 		var outs []c09Out
-		if req.Raw != "" || len(req.Toks) == 0 {
+		if req.Gen != nil {
+			// "never loops forever" for an input of many megabytes: the watchdog grows with the input (1 s per 200 KB)
+			input := req.Gen.Head + strings.Repeat(req.Gen.Rep, req.Gen.N)
+			old := watchdog
+			watchdog = 2*time.Second + time.Duration(len(input)/200000)*time.Second
+			o := runC09(input, false)
+			watchdog = old
+			o.In, o.InB64, o.Sep = "", "", "gen"
+			outs = append(outs, o)
+		} else if req.Raw != "" || len(req.Toks) == 0 {
 			b, err := base64.StdEncoding.DecodeString(req.Raw)
 			if err != nil {
 				return obj{"ok": false, "err": err.Error()}
